@@ -18,6 +18,18 @@ CLAIMS = {
          "Tables (31 size strings, de Bruijn pair) exhaustively; is_log_valid/is_valid shapes; the four relation predicates and compare_sizes as difference constraints equal the definition; capping border dispatch; cap and raw-score formula trees equal the documented formulas and are reached only in their asserted domain. Value-range facts (1..=100) are not decided.", "§3.1, §3.3, §3.8, §4 C20"),
  "C04": ("panic-edge audit over the resolved call graph (MIR Assert/Index/unwrap edges with automatic and reviewed discharges, who-may-call and bounded-input side conditions) + error-path purity + dominance rule on error origins",
          "Totality of parsing is decided as: every panic edge reachable from the six generic parse entry points in release-like configurations is discharged or reviewed with a structural side condition (the RLE encoder is callable only from the bounded compressor); the caller's index is written only on the way to Ok; error origins follow the parser phase; stored symbols come from the exact reverse table under the not-INVALID guard into fresh objects. That the accepted language equals the grammar is NOT decided.", "§3.10, §3.4, §4 C04"),
+ "C06": ("tail-clear rule (linear normal form of fill start vs stored length), resolved-call-graph funnel rule, sibling agreement of run-limit comparisons, on MIR",
+         "Decides: freed tail cleared by the in-place normaliser and the dual compressor; every normalising route reaches the one in-place routine unconditionally for both block hashes with the source's NORM flag; the three run-collapsers and the checker test `counter >= MAX_SEQUENCE_SIZE(3)` right after the increment; is_normalized inspects both block hashes with like indices. That the surviving characters are right / idempotence as values are NOT decided.", "§3.6, §3.13, §4 C06"),
+ "C07": ("write census over RLE storage, tail-clear rule, who-may-call rule on the encoder, Eq/Hash/Ord field agreement, on MIR",
+         "Decides the canonical-storage clauses: RLE tail terminator-filled from the encoder's final offset and normalised tail zero-filled on every construction route; all RLE writes are TERMINATOR-fill, like-field copies, or through the single encoder; encoder callable only via the bounded compressor; Eq/Hash/Ord use all three components like with like (norm_hash first). expand(compress(x))==x is NOT decided.", "§3.5, §3.6, §4 C07"),
+ "C11": ("visibility facts + belief/live-guard taint rule (SA-VALIDATE) + write census (dest-complete, tail, like-index) + typestate + panic-edge audit, on MIR of several configurations",
+         "Widest check; decides structural necessary conditions: private representation and enumerable writers; every debug-only belief over caller-supplied internals has a release-live twin on every exported safe constructor; every writer defines the whole destination and its tail; masks cleared before accumulation; is_valid/full_eq/Debug have no undischarged panic edge for any content; parsing total. Value-correctness of what is written is NOT decided.", "§3.2, §3.5-3.10, §4 C11"),
+ "C15": ("write census: like-indexed field copies, destination completeness, tail rules; exact narrowing guard; error-path purity; single-call delegation of trait forms",
+         "Decides per-conversion field facts on every path: each field copied from the like-named source field, all fields and array tails defined, narrowing fails exactly for len2 > 32 without touching the destination, trait forms are the named conversions, raw->normalised passes through the one normaliser and normalised->raw through none. Commutation of chains as a value statement is NOT decided.", "§3.4-3.6, §4 C15"),
+ "C16": ("field-set agreement of PartialEq / Hash / Ord bodies on MIR (like-with-like pairing, positional tuple agreement)",
+         "Decides for both type families: eq compares like-named fields of both operands and all of them; hash feeds exactly those; cmp compares the same fields in the same positions in the documented order (dual: normalised part first); PartialOrd = Some(cmp); dependence on the zero tail discharged by SA-TAIL. The order as a value statement over all pairs is NOT decided.", "§3.5, §4 C16"),
+ "C17": ("typestate analysis (Zero/Unknown) over the occupancy-mask locations with effects inferred from bodies, at every call site, on MIR",
+         "Decides the history clause: at every call site of an accumulate-first initialiser the masks are Zero on every incoming path (dominating clear on the same location, or fresh all-zero object), requirement-passing functions are not exported, views pair mask K with length K; lengths/block size copied from like-named fields. That the bits equal the string is NOT decided.", "§3.7, §4 C17"),
 }
 NA = {
  "C01": "byte-exact agreement with the ssdeep CTPH algorithm is numeric over all inputs (piece boundaries, FNV folding, fork/elimination); no necessary condition is visible in code shape beyond those checked under C11/C12/C13/C14/C19; static analysis cannot decide it",
